@@ -45,7 +45,7 @@ def expected(kind, o, sg=1.0):
     return (x, y1, y2)
 
 
-def same(got, exp, sg=1.0):
+def same(got, exp, sg=1.0, disc=False):
     if got is None or exp is None:
         return got is None and exp is None
     if len(got) != len(exp):
@@ -53,6 +53,8 @@ def same(got, exp, sg=1.0):
     for k, (g, e) in enumerate(zip(got, exp)):
         if len(g) != len(e):
             return False
+        if disc and k > 0 and len(g) >= 2:
+            g, e = g[1:-1], e[1:-1]        # the two edge entries never count
         sc = sg if k == 0 else 1.0
         if not all(close(u, v, sc) for u, v in zip(g, e)):
             return False
@@ -101,7 +103,7 @@ def chk_heap(rec, be):
         bad = False
         for k, (f, o) in enumerate(zip(heap, rec["post"])):
             got, exp = arrays(kind, f), expected(kind, o, sg)
-            if not same(got, exp, sg):
+            if not same(got, exp, sg, disc=(kind == "disc")):
                 what = "receiver" if k == rec["op"]["d"] - 1 else "object %d (not the receiver)" % (k + 1)
                 out.append(_mm(sub, "%s %s: %s is %s expected %s" % (sub, hdr, what, show(got), show(exp)),
                                show(got), show(exp)))
@@ -160,6 +162,17 @@ def chk_query(rec, be):
                 bad(what, r, exp)
         n += 1
         k = q["kind"]
+        if k == "bad":
+            # error paths are outside the statement of C10 / C11: advisory only (never a verdict)
+            if sg == 1.0:
+                st, r = call(lambda: obj.integral((a, b)))
+                got = "raise:" + r.split(":")[0] if st != "ok" else "value %r" % (r,)
+                if got != res["branch"]:
+                    m_ = _mm(sub, "%s %s: integral of an interval outside the support: %s, the specification says %s" % (
+                        sub, hdr, got, res["branch"]))
+                    m_["advisory"] = True
+                    out.append(m_)
+            continue
         if kind == "disc":
             ratio = (v / m) if m > 0 else 1.0
             if k == "integral":
